@@ -254,7 +254,7 @@ struct Driver
         std::ostringstream o;
         o << "{\"k\":\"" << names[PL::template kind<I>()] << "\",\"sz\":" << sizeof(T)
           << ",\"al\":" << PL::template Info<I>::al
-          << ",\"triv\":" << (std::is_trivially_copyable_v<T> ? 1 : 0)
+          << ",\"triv\":" << (std::is_trivially_copyable_v<T> || IS_CELL<T> ? 1 : 0)   // Cell: no lifetime events
           << ",\"flt\":" << (std::is_floating_point_v<T> ? 1 : 0)
           << ",\"sgn\":" << ((std::is_integral_v<T> && std::is_signed_v<T>) ? 1 : 0) << "}";
         return o.str();
@@ -758,7 +758,7 @@ struct Driver
     template <class A, class B>
     static bool same_field(const A& a, const B& b)
     {
-        if constexpr (std::is_class_v<A> && !VT<A>::tracked && !std::is_same_v<A, std::string> && !IS_BLOB<A>)
+        if constexpr (std::is_class_v<A> && !VT<A>::tracked && !std::is_same_v<A, std::string> && !IS_BLOB<A> && !IS_CELL<A>)
             return a.size() == b.size() && std::equal(a.begin(), a.end(), b.begin());   // spans
         else
             return a == b;
@@ -1335,6 +1335,7 @@ struct Driver
             t->~Vec();
             ledger().take_sub();
         }
+        cell_pool().begin_pass();   // one observation pass: the same pool cell must not be reached from two addresses
         std::ostringstream o;
         o << "{\"e\":\"op\",\"h\":" << h << ",\"s\":" << step << ",\"n\":\"" << op.n << "\",\"v\":" << v << ",\"a\":[";
         for (std::size_t i = 0; i < op.a.size(); ++i) o << (i ? "," : "") << op.a[i];
